@@ -7,13 +7,13 @@ from persim import wasserstein
 from ..core import Clause, close
 from ..oracles import matching as M
 from ..strategies import diagram_family, valid_family
-from ._dist import (EMPTY_FORMS, INF, as_input, call_quiet, coord_scale, has_dup, lattice_slice_cases,
+from ._dist import (near_identical_pair, EMPTY_FORMS, INF, as_input, call_quiet, coord_scale, has_dup, lattice_slice_cases,
                     pair_labels, small_pairs)
 
 RULE = ("Pairs of diagrams from a shared lattice (ties, duplicates, diagonal points, negative coordinates, scales "
         "10^-6..10^6), ulp-perturbed lattice points and arbitrary floats.")
 ASSUMPTIONS = ["diagrams are (n,2) arrays / nested lists or an accepted empty form (extra columns are outside the statement)",
-               "brute-force definition for <= 5 points per diagram; LP reference (HiGHS) above that, self-checked against the brute force",
+               "brute-force definition for <= 5 points per diagram; independent assignment reference (own Kuhn-Munkres on the reduced-gain matrix) above that, self-checked against the brute force",
                "tolerance 1e-9 * (sum of |coordinates|): the implementation reads diagonal distances off a 45-degree rotation whose "
                "cos and sin differ in the last bit"]
 
@@ -75,14 +75,14 @@ def check_value_medium(case, ctx):
         bf, _ = M.brute(A, B, "w")
         ctx.label("oracle_selfcheck")
         if not close(bf, ref, wscale(A, B)):
-            raise RuntimeError("LP reference disagrees with the definition: %r vs %r on %s %s" % (ref, bf, A, B))
+            raise RuntimeError("assignment reference disagrees with the definition: %r vs %r on %s %s" % (ref, bf, A, B))
     ctx.nontrivial(min(len(A), len(B)) >= 1 and max(len(A), len(B)) >= 6)
     out, _ = call_quiet(ctx, wasserstein, as_input(A), as_input(B))
     ctx.require(close(out, ref, wscale(A, B)), "value",
-                lambda: "wasserstein=%r, LP reference=%r; |A|=%d |B|=%d A=%s B=%s" % (out, ref, len(A), len(B), A, B))
+                lambda: "wasserstein=%r, independent assignment reference=%r; |A|=%d |B|=%d A=%s B=%s" % (out, ref, len(A), len(B), A, B))
 
 
-s_value_medium = st.fixed_dictionaries({"fam": diagram_family(count=2, min_size=0, max_size=25, dup_bias=True)})
+s_value_medium = st.fixed_dictionaries({"fam": diagram_family(count=2, min_size=0, max_size=40, dup_bias=True)})
 
 
 @st.composite
@@ -130,6 +130,17 @@ def check_slice(case, ctx):
     ctx.require(close(out, ref, wscale(A, B)), "value", lambda: "wasserstein=%r, definition=%r; A=%s B=%s" % (out, ref, A, B))
 
 
+def check_near_identical(case, ctx):
+    fam = case["fam"]
+    A, B = fam["dgms"]
+    ctx.label("mode:" + fam["mode"], "k=%d" % case["k"])
+    ref, _ = M.brute(A, B, "w")
+    ctx.nontrivial(len(A) >= 2 and ref > 0)
+    out = ctx.call(wasserstein, as_input(A), as_input(B))
+    ctx.require(close(out, ref, wscale(A, B)), "value",
+                lambda: "wasserstein=%r, min over all matchings=%r (nearly identical diagrams, perturbation 1e-%d); A=%s B=%s" % (out, ref, case["k"], A, B))
+
+
 CLAUSES = [
     Clause("value_small", s_value_small, check_value_small, quick=6400, thorough=80000,
            floors={"genuinely_mixed": 0.03},
@@ -137,8 +148,11 @@ CLAUSES = [
                 "non-trivial = both non-empty and (the optimum is strictly cheaper than both the all-diagonal matching and the best "
                 "maximum-cardinality matching, i.e. genuinely mixes cross and diagonal pairs, or a point is repeated)"),
     Clause("value_medium", s_value_medium, check_value_medium, quick=960, thorough=8000,
-           rule="0..25 points each; oracle = LP (scipy HiGHS), self-checked against the brute force whenever <= 2000 matchings; "
+           rule="0..40 points each; oracle = own Kuhn-Munkres on the reduced-gain matrix, self-checked against the brute force whenever <= 2000 matchings; "
                 "non-trivial = both non-empty and one has >= 6 points"),
+    Clause("near_identical", near_identical_pair(5), check_near_identical, quick=3200, thorough=40000,
+           rule="B = permuted copy of A (1..5 points) with coordinates moved by (-3..3)*10^-k*max|coord|, k in 3..15; brute-force oracle; "
+                "non-trivial = >= 2 points and a non-zero true distance"),
     Clause("inf_dropped", s_inf(), check_inf, quick=1600, thorough=20000,
            rule="1..2 points with infinite death inserted at generated positions; value equals the brute-force value of the finite "
                 "parts and a UserWarning names exactly the affected argument(s); non-trivial = >= 2 finite points overall"),
